@@ -48,6 +48,7 @@ func (m *MapDataSlab) Encode(enc *Encoder) error {
 
 	// Get a buffer from a pool to encode elements.
 	elementBuf := getBuffer()
+	verifEvent("buffer.get", elementBuf)
 	defer putBuffer(elementBuf)
 
 	elemEnc := NewEncoder(elementBuf, enc.encMode)
